@@ -1,5 +1,7 @@
 import CoercionModel.Model.Clone
 import CoercionModel.Generated.F7
+import CoercionModel.Model.SkeletonsMore
+import CoercionModel.Generated.F12
 set_option linter.unusedSimpArgs false
 /-
   C18 — Clones are deep, definition-preserving and resubmittable.
@@ -102,5 +104,10 @@ def ran : Plan := { id := 5, name := "p", status := .failed, reason := .block, s
 example : (plan false ran).blocks.map (fun b => (b.id, b.key, b.status)) = [(0, 0, .notStarted)] := by decide
 example : (action false ranAction).attempts = [] ∧ (action false ranAction).retries = 2 ∧ (action false ranAction).id = 0 := by decide
 example : plan true ran = noKeyPlan ran ∧ (plan true ran).reason = .block := ⟨keep_state_preserves_everything ran, rfl⟩
+
+set_option maxRecDepth 100000 in
+/-- the code this property's model mirrors still has the shape the model was written against (control-flow
+    skeletons regenerated from /repo on every run, Model/SkeletonsMore) -/
+theorem facts_model_skeleton : Generated.F12.clone = SkeletonsMore.clone := by decide +kernel
 
 end Coercion.C18
